@@ -532,7 +532,7 @@ fn interpolate(lit: &str, expressions: &[Core]) -> String {
             string.push(c);
         }
 
-        back_slash = c == '\\';
+        back_slash = c == '\\' && !back_slash;
     }
 
     string.push_str(&cur_expr);
